@@ -103,7 +103,8 @@ def handleIface : List String → Option String
     let t ← parseTarget parsed
     let o : Opts := ⟨if ifname == "-" then none else some ifname, srcip, srcmac, t⟩
     match kind with
-    | "opts" =>
+    | "opts" | "optsf" =>
+      -- `optsf` = the same options with an address file given as well: the positional target selects as before
       let m := match ipScanOptions h o with
         | .error e => showErr e
         | .ok r => s!"{showRange r.range} vpn={b2s r.vpn} gw={hexO r.gw}"
